@@ -396,8 +396,12 @@ def westfall_young(data, test, method="minP", alternatives="greater",
             # iterate over sorted test statistics
             prev_i = [*sorted_t][0]
             for i in [*sorted_t]:
-                # replace test stats with successive maxima
-                tv[i][b] = max(np.abs(tv[i][b]), np.abs(tv[prev_i][b]))
+                # replace test stats with successive maxima (of absolute
+                # values only for two-sided alternatives)
+                if alternatives[i] == "two-sided":
+                    tv[i][b] = max(np.abs(tv[i][b]), np.abs(tv[prev_i][b]))
+                else:
+                    tv[i][b] = max(tv[i][b], tv[prev_i][b])
                 prev_i = i
         # compute adjusted p-values
         for c in range(len(test)): 
